@@ -5,7 +5,7 @@ import core
 from core import hx, gen_int, gen_mag, gen_words_len
 
 ID = "C04"
-READY = False
+READY = True
 ORACLE = "c04"
 HARNESS_BIN = "c04"
 NCASES = {"quick": 9000, "thorough": 200000}
